@@ -1262,10 +1262,14 @@ class Model:
 
         # Evaluate common terms
         encodings = self._get_encoding_bools()
-        self.add_extra_terms(encodings, data, env)
 
-        # Need to get encodings again after creating possible extra terms
-        encodings = self._get_encoding_bools()
+        # An extra (lower order) term may itself need further extra terms, e.g. 'f:g:h' alone
+        # needs 'f', 'f:g' and then 'f:g:h' to span the cell means. Repeat until every term has
+        # a single encoding.
+        while any(hasattr(enc, "__len__") and len(enc) > 1 for enc in encodings.values()):
+            self.add_extra_terms(encodings, data, env)
+            # Need to get encodings again after creating possible extra terms
+            encodings = self._get_encoding_bools()
 
         for term in self.common_terms:
             if term.name in encodings:
